@@ -95,6 +95,10 @@ class G:
             self.counters += 1
             a, b = r.randint(-2, 4), r.randint(-2, 6)
             st = r.choice([1, 1, 2, -1, -2, 3])
+            if r.random() < 0.12:
+                # bounds near the limits of INTEGER: the range is wider than the type, the increment overflows at NEXT
+                a, b = r.choice([(-30000, 30000), (30000, -30000), (32000, 32767), (-32000, -32767), (-32767, 32767), (20000, 32767)])
+                st = r.choice([20000, 15000, 32767, 500]) * (1 if b >= a else -1)
             body = self.block(depth - 1, in_do, True)
             self.counters -= 1
             return ('F', c, ('N', a), ('N', b), ('N', st), body)
